@@ -1399,6 +1399,8 @@ class SVG:
                 break
             # a dissolved group pushed its opacity down onto its child
             self.round_floats(ndigits, inplace=True)
+        # the shapes just dropped may have been the only users of a gradient
+        self._remove_orphaned_gradients()
 
         violations = self.checkpicosvg(
             allow_text=allow_text, drop_unsupported=drop_unsupported
